@@ -7,7 +7,7 @@ IDS="$@"
 rc=0
 for p in $IDS; do
   s=$(date +%s)
-  out=$(./bin/check $p quick 2>&1); r=$?
+  out=$(timeout 900 ./bin/check $p quick 2>&1); r=$?
   e=$(( $(date +%s) - s ))
   echo "== $p exit=$r ${e}s :: $(echo "$out" | grep -E "^$p quick" )"
   echo "$out" | grep -E "^FAILED|KNOWN-FINDING" | cut -c1-300
